@@ -111,22 +111,22 @@ NOT_BUILT = {}
 # additions made after the first build (seeded waves 3-5); appended to `text`
 ADDENDA = {
  "C19": " The T / M extension records of the tutorial (two reference fields), cloned in a process of its own.",
- "C18": " Lines produced by gfapy (merged segments, copies of multiply, converted lines, clones) obey the level of their Gfa.",
+ "C18": " Lines produced by gfapy (merged segments, copies of multiply, converted lines, clones) obey the level of their Gfa. A new tag on a copy, then a tag of that name and another type on another line, is accepted at every level.",
  "C10": " Ordered groups that begin with, or list later, an edge walked backwards.",
  "C01": " Tags named like a predefined tag of the other version or like a field alias (LN on a GFA2 segment); custom record types of several letters before / after the version is known.",
- "C02": " Also: the same search from the fully loaded universes (`@full`, depth 3 quick / 4 thorough), and lines that are refused only after their first references were resolved, offered in every state in which they are refused. Operations that name an unnamed link / containment and delete its ID; continuation lines of a multi-line group that add, then contradict a tag; removed Line objects added again.",
- "C03": " Seed documents with two paths over one link in opposite directions and asymmetric CIGARs, link written in either form. Selected seeds also at validation levels 0 and 3, one seed with valid non-canonical lazily parsed tags on lines queued while the version is unknown.",
+ "C02": " Also: the same search from the fully loaded universes (`@full`, depth 3 quick / 4 thorough), and lines that are refused only after their first references were resolved, offered in every state in which they are refused. Operations that name an unnamed link / containment and delete its ID; continuation lines of a multi-line group that add, then contradict a tag; removed Line objects added again. Operation conv over a convertible GFA1 universe (to_gfa2_s assigns IDs to the unnamed links of the source, which must stay closed, symmetric and found under those IDs); operation addshare (a line built through the API whose field value is the very object another line holds; the state key tells shared objects from equal values); a model-free namespace-coherence clause.",
+ "C03": " Seed documents with two paths over one link in opposite directions and asymmetric CIGARs, link written in either form. Selected seeds also at validation levels 0 and 3, one seed with valid non-canonical lazily parsed tags on lines queued while the version is unknown. The lines of the GFA2 seeds also arrive, in all orders, in a Gfa produced by to_gfa2().",
  "C04": " The `$` rule with the judged segment on either side of the edge and the other side with / without a sequence. The verdict of every document-table entry must be the same through Gfa(list), Gfa(string) and Gfa.from_file; lines ending in blanks / tabs.",
  "C05": " Also from the fully loaded universes (`@full`), with the operations `nameit` (give an unnamed line an identifier) and delete of the ID tag of a link / containment. Operations addclone (clone of a segment added as Line object), readd (a removed Line object added again), set(tag, None); the core specs also from their loaded universe.",
- "C06": " Path cases also with the path arriving before its links and together with the path walking the same links backwards. Header tag sets and comments in both directions (to_gfaN and to_gfaN_s); line-level to_gfa2_s of paths before / after their unnamed links, assembled and validated.",
+ "C06": " Path cases also with the path arriving before its links and together with the path walking the same links backwards. Header tag sets and comments in both directions (to_gfaN and to_gfaN_s); line-level to_gfa2_s of paths before / after their unnamed links, assembled and validated. A path moved from one Gfa to another is converted as a line of the Gfa it is in (differential against the same text parsed afresh).",
  "C07": " Two-step API programs: a refused call (caught), then ordinary calls on the same objects. Less-used queries and options taking a name (is_cut_segment, segment_connected_component, linear_path, multiply, merge with merged_name), None assigned to every field name, programs on a connected fragment, files read with progress logging (part = 0, 0.1, 0.5, 1, 2), one extreme field at a time, attribute-like tag names.",
- "C08": " Also from the fully loaded universes (`@full`); failure alphabet includes lines refused after their first side was resolved (second side names a non-segment; first side known only from a group). header.add with another datatype / an invalid value; edits of the external / sid field of a connected fragment; refused E / G lines named like an identifier a group mentions in advance.",
- "C09": " Also from the fully loaded universes; a path over an ID-tagged link (placeholder link replaced by a link whose ID may be in use); delete of the ID tag. An accepted operation that the model leaves open must still leave a coherent namespace (model-free check, also for replaced lines); `*` as value of the ID tag; a further line of a group that another group lists.",
+ "C08": " Also from the fully loaded universes (`@full`); failure alphabet includes lines refused after their first side was resolved (second side names a non-segment; first side known only from a group). header.add with another datatype / an invalid value; edits of the external / sid field of a connected fragment; refused E / G lines named like an identifier a group mentions in advance. H lines that fix the version and cannot be merged.",
+ "C09": " Also from the fully loaded universes; a path over an ID-tagged link (placeholder link replaced by a link whose ID may be in use); delete of the ID tag. An accepted operation that the model leaves open must still leave a coherent namespace (model-free check, also for replaced lines); `*` as value of the ID tag; a further line of a group that another group lists. Also searched from a state in which a placeholder segment survives only because a group lists the identifier.",
  "C11": " Post-operations `refused` (line refused after its first side was resolved) and `in-out` (line over placeholders added and removed). Post-operations rm-line (the judged edge removed by instance) and a path over the judged link arriving before / after it.",
  "C12": " Family twopaths: two paths walking one link in opposite directions, link written in either form, segments bare or with sequence/tags, all arrival orders, complement of the stored link taken after every arrival. The algebra / graph / twopaths families again at validation levels 0 and 3.",
  "C13": " Entry points `clones` (cloned Line objects) and `carry` (refused lines dropped, the caller carries on: what the Gfa holds must be a document of the version it reports). carry also at level 0 with the exactly-once clause only.",
- "C14": " The families again at validation levels 0/2/3; GFA2 twins with the sides of the E lines exchanged and with identical parallel E lines. One probe graph per IUPAC letter and case on a segment that is reverse-complemented; GFA2 decorations (one read with fragments on several segments, header, comment, custom record).",
- "C15": " Links / containments with ID tags; opposite-direction parallel links with I/D overlaps; the graph is judged as built.",
+ "C14": " The families again at validation levels 0/2/3; GFA2 twins with the sides of the E lines exchanged and with identical parallel E lines. One probe graph per IUPAC letter and case on a segment that is reverse-complemented; GFA2 decorations (one read with fragments on several segments, header, comment, custom record). Segment variant with LN on some sequence-carrying segments only.",
+ "C15": " Links / containments with ID tags; opposite-direction parallel links with I/D overlaps; the graph is judged as built. After the operation a new tag on a copy and a tag of that name and another type on the original are independent.",
  "C16": " Also from the fully loaded graph-shaped universes (`@full`); refused operations are judged; a query that raises on a well-formed document is a violation. A model-free namespace-coherence clause on every accepted operation; a second containment edge in the GFA2 universe.",
  "C17": " Families Uanon (unnamed / parallel / hairpin edges in induced sets) and Urename (groups queried and extended after a rename, differential against a fresh parse of the renamed text). Graphs with a containment, an internal alignment, a self-edge, a dovetail + internal pair between two items; identical unnamed twin edges; tags of non-default datatypes on multi-line groups.",
  "C20": " Tag histories (set, delete, set with another type; differential against a fresh line) and `header.add` without datatype on a declared tag. Clone programs (first value on the clone, second on the original and vice versa); string values also through to_file / from_file.",
